@@ -162,6 +162,17 @@ def run_case(case):
                 if [x.id for x in env] != order or len(env) != len(order):
                     raise Violation("environment-altered", f"{where}: {what} changed the environment: {[x.id for x in env]} vs {order}")
             got = env.get_agents(*tmpl, **kw)
+            if not kw and k % 3 == 1:           # the deprecated spellings (no tag parameter) are still entry points
+                alias = env.getAgents(*tmpl)
+                if not isinstance(alias, list) or [id(x) for x in alias] != [id(x) for x in got]:
+                    raise Violation("alias-differs", f"{where}: the deprecated getAgents{tuple(t.__name__ for t in tmpl)} returned "
+                                                     f"{[getattr(x, 'id', x) for x in alias] if isinstance(alias, list) else alias!r}, get_agents "
+                                                     f"{[getattr(x, 'id', x) for x in got] if isinstance(got, list) else got!r}")
+                pick = env.getRandomAgent(*tmpl)
+                if (pick is None) != (not got) or (pick is not None and not any(pick is x for x in got)):
+                    raise Violation("pick-outside-filter", f"{where}: the deprecated getRandomAgent returned {getattr(pick, 'id', pick)!r}, candidates "
+                                                           f"{[getattr(x, 'id', x) for x in got] if isinstance(got, list) else got!r}")
+                labels.add("deprecated-aliases")
             desc = f"template {[t.__name__ for t in tmpl]} tag={tag!r}; population {[(a.id, m, t) for a, m, t in pop]}"
             if not isinstance(got, list) or [id(x) for x in got] != [id(x) for x in want]:
                 ids = [getattr(x, "id", x) for x in got] if isinstance(got, list) else got
